@@ -691,11 +691,17 @@ func closeToken(idx, count, cpos, match int, pos map[int]int, line []rune, split
 
 // newlines gives the indexes of all newline characters in the line.
 func (l *Line) newlines() [][]int {
-	line := string(*l)
-	line += string(inputrc.Newline)
-	nl := regexp.MustCompile(string(inputrc.Newline))
+	indexes := make([][]int, 0)
 
-	return nl.FindAllStringIndex(line, -1)
+	// Positions are counted in characters (like the cursor), not in bytes.
+	for pos, char := range *l {
+		if char == inputrc.Newline {
+			indexes = append(indexes, []int{pos, pos + 1})
+		}
+	}
+
+	// The end of the buffer closes the last line.
+	return append(indexes, []int{l.Len(), l.Len() + 1})
 }
 
 // returns bpos, epos ordered and true if either is valid.
